@@ -165,7 +165,9 @@ def solve_one(i):
         for phase, tmo in (("quick", first), ("refute", None), ("full", budget)):
             if phase == "refute":
                 if not opts.get("refute", True): continue
-                r = _refute(eng, ob, opts)
+                try: r = _refute(eng, ob, opts)
+                except z3.Z3Exception as ex:
+                    res["detail"] += f" [z3 exception in refutation pass: {str(ex)[:80]}]"; r = None
                 if r is not None:
                     res.update(result="refuted", witness=r[0], detail=f"bounded refutation pass: sat with sequence lengths <= {r[1]}, spec functions transparent, lemma axioms dropped")
                     break
@@ -176,7 +178,9 @@ def solve_one(i):
             for seed in seeds:       # z3's instantiation heuristics are seed-sensitive on recursive definitions: retry with other seeds
                 sol = z3.Solver(); sol.set("timeout", int(tmo if phase == "quick" else max(1000, tmo // len(seeds)))); sol.set("random_seed", seed)
                 sol.add(*exprs)
-                r = sol.check()
+                try: r = sol.check()
+                except z3.Z3Exception as ex:       # an internal solver error is an 'unknown', never a verdict
+                    res["detail"] += f" [z3 exception: {str(ex)[:80]}]"; r = z3.unknown
                 if r != z3.unknown: break
             if r == z3.unsat:
                 res.update(result="proved"); break
